@@ -82,7 +82,7 @@ pub enum G {
     /// of `just(_).configure(seq = t)`
     CtxPair(u8),
     /// chumsky::text parsers and regex — StrInput kinds only (k >= 9: regex, needs a borrowed slice type):
-    /// 0 ascii::ident, 1 unicode::ident, 2 int(10), 3 int(16), 4 digits(10).to_slice(), 5 whitespace().at_least(1),
+    /// 0 ascii::ident, 1 unicode::ident, 2 int(10), 3 int(16), 4 digits(36).to_slice(), 5 whitespace().at_least(1),
     /// 6 inline_whitespace().at_least(1), 7 newline(), 8 whitespace() (may match nothing),
     /// 9 regex("[a-c]+[07]*"), 10 regex("[^ \n0]+")
     Text(u8),
@@ -682,7 +682,7 @@ pub fn sexpr(g: &G) -> String {
         SliceFrom => "slice_from".into(),
         CtxPair(f) => format!("ctx_pair#{}", f),
         CustomApi(k, a) => format!("custom_api#{}({})", k, c(*a)),
-        Text(k) => format!("text#{}", ["ascii_ident", "unicode_ident", "int10", "int16", "digits10", "ws1", "inline_ws1", "newline", "ws0", "regex0", "regex1"].get(*k as usize).copied().unwrap_or("?")),
+        Text(k) => format!("text#{}", ["ascii_ident", "unicode_ident", "int10", "int16", "digits36", "ws1", "inline_ws1", "newline", "ws0", "regex0", "regex1"].get(*k as usize).copied().unwrap_or("?")),
         Padded(a) => format!("(padded {})", sexpr(a)),
     }
 }
@@ -741,21 +741,21 @@ pub fn sample(g: &G, rng: &mut Rng, nsym: u8, out: &mut Vec<u8>, fuel: &mut i64,
             match k {
                 0 | 1 => {
                     some(&[0, 2, 4, 6, 13, 1, 3], 1, 1, rng, out);
-                    some(&[0, 1, 2, 3, 4, 6, 7, 11, 12, 13], 0, 4, rng, out);
+                    some(&[0, 1, 2, 3, 4, 6, 7, 11, 12, 13, 15, 22, 23, 16, 17, 20], 0, 4, rng, out);
                 }
                 2 => {
                     if rng.chance(1, 4) {
                         out.push(11);
                     } else {
                         out.push(12);
-                        some(&[11, 12], 0, 3, rng, out);
+                        some(&[11, 12, 23, 18, 19], 0, 3, rng, out);
                     }
                 }
                 3 => {
                     some(&[12, 0, 2, 4], 1, 1, rng, out);
-                    some(&[11, 12, 0, 1, 2, 3, 4, 5], 0, 3, rng, out);
+                    some(&[11, 12, 23, 0, 1, 2, 3, 4, 5, 6, 22, 16, 17, 18, 19], 0, 3, rng, out);
                 }
-                4 => some(&[11, 12], 1, 4, rng, out),
+                4 => some(&[11, 12, 23, 0, 2, 4, 6, 7, 15, 22], 1, 4, rng, out),
                 5 => some(&[8, 9, 10, 14, 15], 1, 3, rng, out),
                 6 => some(&[8, 14], 1, 3, rng, out),
                 7 => match rng.below(4) {
